@@ -135,6 +135,26 @@ theorem time_derivative_eq (D : Diff ℝ) (hD : DiffContract D) (mean : List ℝ
     funext s; rw [set_append_last]; rfl
   rw [hfun]; exact hd
 
+/-- **time_derivative of several value columns.**  Entry `(i, k)` of `p.time_derivative(x, t)` for a predictor with several
+    value columns is the time derivative of column `k` alone — what the single-column predictor of that column returns
+    (`time_derivative_eq` then identifies it with `∂/∂t`) — and the result has one entry per column in every row. -/
+theorem time_derivative_columns (D : Diff ℝ) (means : List (List ℝ → ℝ)) (X : List (List ℝ)) (ts : List ℝ)
+    (i k : Nat) (hk : k < means.length) :
+    ((PredictorTime.timeDerivativeCols D means X ts).getD i []).getD k 0
+        = (PredictorTime.timeDerivative D (means.getD k fun _ => 0) X ts).getD i 0
+    ∧ (i < (mergeTime X ts).length →
+        ((PredictorTime.timeDerivativeCols D means X ts).getD i []).length = means.length) := by
+  simp only [PredictorTime.timeDerivativeCols, PredictorTime.timeDerivative, Predictor.gradient, Deriv.gradient,
+    Deriv.gradientCols, List.map_map, List.getD_eq_getElem?_getD, List.getElem?_map]
+  cases hmi : (mergeTime X ts)[i]? with
+  | none => simp [List.getElem?_eq_none_iff.mp hmi |> fun h => by omega]
+  | some row =>
+    have hlt : i < (mergeTime X ts).length := by
+      by_contra hge
+      rw [List.getElem?_eq_none_iff.mpr (by omega)] at hmi
+      cases hmi
+    simp [hk, hlt]
+
 /-- **time-aware gradient: `t` held fixed.**  `p.gradient(x, t)[i, j]` is the partial derivative in the
     state coordinate `x_j` of `p(·, t_i)` at `x_i`. -/
 theorem time_gradient_fixes_time (D : Diff ℝ) (hD : DiffContract D) (mean : List ℝ → ℝ)
